@@ -613,3 +613,40 @@ func describeFont(f *type1.Font) string {
 	}
 	return sb.String()
 }
+
+// ---------------------------------------------------------------- AFM metrics
+
+type afmOpts struct {
+	representable bool // C15 clause 1 domain: integral in-range numbers, single-token names, injective encoding
+	features      map[string]bool
+}
+
+func (o *afmOpts) f(s string) {
+	if o.features != nil {
+		o.features[s] = true
+	}
+}
+
+func genToken(rng *rand.Rand) string {
+	n := 1 + rng.IntN(10)
+	b := make([]byte, n)
+	for i := range b {
+		for {
+			c := byte(33 + rng.IntN(94))
+			if c != ';' {
+				b[i] = c
+				break
+			}
+		}
+	}
+	return string(b)
+}
+
+func genWords(rng *rand.Rand) string {
+	n := rng.IntN(5)
+	var w []string
+	for i := 0; i < n; i++ {
+		w = append(w, genToken(rng))
+	}
+	return strings.Join(w, " ")
+}
